@@ -522,6 +522,7 @@ type LoopSpec struct {
 	Decreases  *Clause
 	Exits      []Clause // asserted on every state leaving the loop
 	Steps      []Clause // relation between the start of an iteration (prev(e)) and its end, asserted at the back edge
+	Conceal    []string // opaque spec functions kept uninterpreted from the cut of this loop on
 }
 
 type FuncContract struct {
@@ -549,6 +550,7 @@ type FuncContract struct {
 	Inline       bool         // trivial leaf function: executed at call sites instead of summarised
 	Chain        bool         // later postconditions may use earlier ones
 	Reveal       bool         // expand opaque spec functions of other packages in this function's VC
+	Conceal      []string     // opaque spec functions kept uninterpreted in this function's VC even at home
 	Findings     []Clause     // known-finding regions (Case = finding name)
 	Allocs       []*STypeExpr // for trusted / interface contracts: kinds the callee may allocate
 	Effects      []string
@@ -795,6 +797,14 @@ func ParseContractFile(src, path string) (cf *ContractFile, err error) {
 				cur.Chain = true
 			case "reveal":
 				cur.Reveal = true
+			case "conceal":
+				// keep the named opaque spec functions uninterpreted in this function's
+				// VC even in their home package (the proof goes through contracts only)
+				for _, n := range strings.Split(rest, ",") {
+					if n = strings.TrimSpace(n); n != "" {
+						cur.Conceal = append(cur.Conceal, n)
+					}
+				}
 			case "pure":
 				cur.Pure = true
 			case "trusted":
@@ -866,6 +876,15 @@ func ParseContractFile(src, path string) (cf *ContractFile, err error) {
 				case "decreases":
 					c := mk(r2, l.line)
 					ls.Decreases = &c
+				case "conceal":
+					// from the cut of this loop on, the named opaque spec functions are
+					// uninterpreted (the induction step and what follows go through
+					// contracts only; the entry obligations are proved with definitions)
+					for _, n := range strings.Split(r2, ",") {
+						if n = strings.TrimSpace(n); n != "" {
+							ls.Conceal = append(ls.Conceal, n)
+						}
+					}
 				default:
 					panic(fmt.Errorf("%s:%d: unknown loop clause %q", path, l.line, k2))
 				}
